@@ -111,7 +111,8 @@ class C11(runner.Prop):
     def strategy(self, tier):
         ml = 10 if tier == 'quick' else 18
         return st.fixed_dictionaries({
-            't': gen.tree_descs(ml), 'cfg': gen.configs(),
+            't': st.one_of(gen.tree_descs(ml), gen.tree_descs(ml), gen.tree_descs(ml), gen.with_childless_twins(gen.tree_descs(max(3, ml // 2)))),
+            'cfg': gen.configs(),
             'proto': st.integers(0, pickle.HIGHEST_PROTOCOL),
             'remote': st.sampled_from([None, None, 'same', 'missing', 'rereg']),
             'victim': st.sampled_from(sorted(U.VICTIMS))})
